@@ -576,7 +576,7 @@ class Gen:
             else:
                 inner = {"k": "create_listing" + suffix, "id": self.fresh_id(), "ask": self.random_ask(v, victim), "wl": None}
         if hook == "receive":
-            m = {"k": "receive", "sender": victim, "amount": r.choice([1, 5, 10 ** 6]), "inner": inner}
+            m = {"k": "receive", "sender": victim, "amount": r.choice([1, 5, 10 ** 6, 1, 5, 10 ** 6, 0]), "inner": inner}
         else:
             m = {"k": "receive_nft", "sender": victim, "token_id": str(r.randint(1, 9)), "inner": inner}
         return [(E(h, m), "hostile")]
